@@ -9,12 +9,22 @@ cp /repo/Cargo.lock $wt/ 2>/dev/null
 cd $wt
 export CARGO_TARGET_DIR=$wt/target CARGO_NET_OFFLINE=true RUST_BACKTRACE=0
 run() { cargo test --offline --no-fail-fast 2>&1 | grep -E "^test result|^test .* FAILED|error(\[|:)" | tr '\n' ';'; }
+# round 7: the demonstration of a change in the hypercall transport needs the hook (file `mode` = hyp), that of a change that only
+# shows without the alloc feature needs the second build configuration (`mode` = noalloc); the pinned suite is always run plainly
+mode=$(cat $d/mode 2>/dev/null)
+rund() {
+  case "$mode" in
+    hyp) RUSTFLAGS="--cfg virtio_drivers_verif" cargo test --offline --no-fail-fast --lib 2>&1 | grep -E "^test result|^test .* FAILED|error(\[|:)" | tr '\n' ';' ;;
+    noalloc) cargo test --offline --no-fail-fast --no-default-features --lib 2>&1 | grep -E "^test result|^test .* FAILED|error(\[|:)" | tr '\n' ';' ;;
+    *) run ;;
+  esac
+}
 git apply $d/demo.diff || { echo "$name: demo does not apply"; exit 2; }
-r1=$(run)
+r1=$(rund)
 git checkout -q -- . && git clean -fdq -e target -e Cargo.lock
 git apply $d/patch.diff || { echo "$name: patch does not apply"; exit 2; }
 r2=$(run)
 git apply $d/demo.diff 2>/dev/null || git apply -C1 $d/demo.diff || echo "demo does not apply on top of the change"
-r3=$(run)
+r3=$(rund)
 cd /; git -C /repo worktree remove --force $wt; rm -rf $wt
 echo "$name | unchanged+demo: $r1 | change only: $r2 | change+demo: $r3" | tee $d/confirm.txt
